@@ -81,7 +81,7 @@ class Proc(object):
     __slots__ = ('pid', 'parent', 'children', 'state', 'wstatus', 'behaviour', 'argv',
                  'env', 'cwd', 'close_fds', 'shell', 'executable', 'spawn_time',
                  'death_time', 'signals', 'out_w', 'err_w', 'watcher', 'wid', 'role',
-                 'inherit_fds', 'is_worker', 'popen', 'reaped_by', 'pending_death')
+                 'inherit_fds', 'is_worker', 'popen', 'reaped_by', 'pending_death', 'pass_fds')
 
     def __init__(self, pid):
         self.pid = pid
@@ -108,6 +108,7 @@ class Proc(object):
         self.popen = None
         self.reaped_by = None
         self.pending_death = False
+        self.pass_fds = ()
 
 
 class SimKernel(object):
@@ -293,6 +294,7 @@ class SimKernel(object):
         p.env = None if env is None else dict(env)
         p.cwd = cwd
         p.close_fds = close_fds
+        p.pass_fds = tuple(kw.get('pass_fds') or ())
         p.shell = shell
         p.executable = executable
         p.watcher = info.get('watcher')
